@@ -172,6 +172,7 @@ type Obligation struct {
 	Bounded string
 	Cover   bool // goal is a reachability cover: expected SAT
 	Static  string
+	Group   string // proof group: only invariants of the same group (and ungrouped ones) are assumed
 	Result  *SolveResult
 }
 
@@ -210,6 +211,7 @@ type Exec struct {
 	nonneg    map[string]bool // pointer terms known to be >= 0 (not allocated by this activation)
 	topFn     *ssa.Function
 	nrange    int
+	groups    map[string]bool
 	writable  map[string][]string // heap -> addresses of pre-existing objects the top function may write (writes clauses)
 }
 
